@@ -247,6 +247,27 @@ def run(ctx):
             ctx.case({"call": src, "setup": list(setup_extra)}, nontrivial=reaches)
             ctx.stat("method receiver " + rlabel.split(":")[0].split("-named-")[0])
             judge(ctx, variant, src, setup, r)
+    # ---- names that are not locals in binding positions ----------------------------------------------------------
+    # every way of writing to / rebinding a name, applied to every kind of name that is not a local variable: a user
+    # function, a built-in, a prelude enum variant and constructor, a type, a namespace alias, an undefined name, and a
+    # local that has gone out of scope while a same-named definition exists
+    names = [("user-function", "helper"), ("builtin", "println"), ("prelude-function", "max"), ("variant", "None"),
+             ("constructor", "Some"), ("bool", "True"), ("type", "Pt"), ("user-variant", "Red"), ("namespace", "fs"), ("undefined", "nosuch9")]
+    forms = [("assign", "%s = 2"), ("assign-in-fun", "fun w1() { %s = 2 }\nw1()"), ("update", "%s += 1"), ("update-sub", "%s -= 1"),
+             ("assign-self", "%s = %s"), ("assign-in-loop", "for i9 in [1, 2] { %s = i9 }"),
+             ("assign-after-shadow", "if True { let %s = 1 %s = 3 }\n%s = 4"),
+             ("assign-in-closure", "let c9 = fun() { %s = 5 }\nc9()"), ("assign-in-match", "match Some(1) { Some(q9) => { %s = q9 } None => {} }"),
+             ("let", "let %s = 1\n%s"), ("let-destructure", "let (%s, z9) = (1, 2)\n%s"), ("for-binder", "for %s in [1] { %s }"),
+             ("match-binder", "match Some(1) { Some(%s) => %s, None => 0 }"), ("param", "fun w2(%s) { %s }\nw2(1)"),
+             ("closure-param", "(fun(%s) { %s })(1)"), ("call", "%s()"), ("call-args", "%s(1, 2, 3)"), ("field", "%s.x"),
+             ("method", "%s.len()"), ("namespace-access", "%s::x")]
+    edge = [(nk, fk, tpl.replace("%s", nm)) for nk, nm in names for fk, tpl in forms]
+    esetup = SETUP + ["fun helper() { 1 }"]
+    eres = eval_in_tempdirs(exe, [e[2] for e in edge], esetup)
+    for (nk, fk, src), r in zip(edge, eres):
+        ctx.case({"program": src, "name_kind": nk, "form": fk}, nontrivial=nk != "undefined")
+        ctx.stat("name edge " + fk)
+        judge(ctx, "name-edge:%s:%s" % (fk, nk), src, esetup, r)
     ctx.notes.append("the machine-level part of C02 (value stack discipline) and the arithmetic part (C04) are not "
                      "exercised by this driver; deep value nesting under the sandbox limits is exercised by C25")
 
